@@ -51,6 +51,34 @@ def nested(rnd: random.Random, n: int):
     return out
 
 
+def shared():
+    """Sharing patterns: one inner column (of a UNION ALL, a CTE referenced twice, a nested derived table) feeds SEVERAL output
+    columns of the same query -- lineage(None, ...) shares one cache across output columns."""
+    out = []
+    sources = [
+        ("(SELECT a, b FROM x UNION ALL SELECT b, c FROM y) AS u", "u", ["a", "b"]),
+        ("(SELECT a AS m, b AS n FROM x UNION ALL SELECT b, c FROM y UNION ALL SELECT c, b FROM z) AS u", "u", ["m", "n"]),
+        ("(SELECT a + b AS m, a AS n FROM x) AS u", "u", ["m", "n"]),
+        ("(SELECT t.a AS m, t.b AS n FROM (SELECT a, b FROM x UNION ALL SELECT b, c FROM y) AS t) AS u", "u", ["m", "n"]),
+    ]
+    for src, al, (c1, c2) in sources:
+        out.append(f"SELECT {al}.{c1} AS p, {al}.{c1} + 1 AS q FROM {src}")
+        out.append(f"SELECT {al}.{c1} AS p, {al}.{c1} + {al}.{c2} AS q, {al}.{c2} AS r FROM {src}")
+        out.append(f"SELECT {al}.{c2} AS p, COALESCE({al}.{c1}, {al}.{c2}) AS q FROM {src}")
+        out.append(f"SELECT {al}.{c1} AS p, v.{c1} AS q, v.{c2} + {al}.{c2} AS r FROM {src} CROSS JOIN {src.replace(' AS u', ' AS v')}")
+    ctes = [
+        ("u(m, n) AS (SELECT a, b FROM x UNION ALL SELECT b, c FROM y)", ["m", "n"]),
+        ("u AS (SELECT a AS m, b AS n FROM x)", ["m", "n"]),
+        ("t AS (SELECT a, b FROM x), u AS (SELECT a AS m, b AS n FROM t UNION ALL SELECT b, a FROM t)", ["m", "n"]),
+    ]
+    for cte, (c1, c2) in ctes:
+        out.append(f"WITH {cte} SELECT u1.{c1} AS p, u2.{c1} + u2.{c2} AS q FROM u AS u1 CROSS JOIN u AS u2")
+        out.append(f"WITH {cte} SELECT u1.{c1} AS p, u2.{c1} AS q, u1.{c2} AS r, u2.{c2} AS s FROM u AS u1 CROSS JOIN u AS u2")
+        out.append(f"WITH {cte} SELECT u.{c1} AS p, u.{c1} AS q, u.{c2} + u.{c1} AS r FROM u")
+        out.append(f"WITH {cte} SELECT w.p AS p, w.p + w.q AS r FROM (SELECT u.{c1} AS p, u.{c2} AS q FROM u) AS w")
+    return out
+
+
 def fixed():
     return [
         "WITH t AS (SELECT a, b FROM x), s AS (SELECT a AS a2, b AS b2 FROM t) SELECT s.a2 AS p, t.b AS q FROM s CROSS JOIN t",
@@ -68,7 +96,7 @@ def fixed():
 
 def programs(tier: str, seed: int):
     rnd = random.Random(seed)
-    out = [("base", q) for q in base()] + [("fixed", q) for q in fixed()]
+    out = [("base", q) for q in base()] + [("fixed", q) for q in fixed()] + [("shared", q) for q in shared()]
     out += [("nested", q) for q in nested(rnd, 150 if tier == "quick" else 1500)]
     seen, res = set(), []
     for f, q in out:
